@@ -1,6 +1,7 @@
 package worlds
 
 import (
+	"math/big"
 	"bytes"
 	"fmt"
 	"sort"
@@ -69,8 +70,12 @@ func runC16(r *simkit.Run) {
 		}
 		d := &ref.TrigDef{Contract: addrUserContract, Preds: []ref.TrigPredicate{{Offset: 0, Op: 5, ByteArg: topic.Bytes()}}}
 		if c.Chance(400, "extra-pred") {
-			// data word 0 >= 5
-			d.Preds = append(d.Preds, ref.TrigPredicate{Offset: 4, Op: 4, IntArg: bigInt(5)})
+			// data word 0 >= 5 (or another comparison with 5)
+			op := uint64(4)
+			if c.Chance(400, "extra-pred-other-comparison") {
+				op = uint64(c.Intn(5, "extra-pred-op"))
+			}
+			d.Preds = append(d.Preds, ref.TrigPredicate{Offset: 4, Op: op, IntArg: bigInt(5)})
 		}
 		if c.Chance(200, "zero-topic-pred") {
 			// "topic 1 == 0": also true for logs that have no topic 1 at all (a missing topic reads
@@ -144,7 +149,12 @@ func runC16(r *simkit.Run) {
 					vals := []common.Hash{common.BytesToHash([]byte{0xaa, 0}), common.BytesToHash([]byte{0xaa, 1}), common.BytesToHash([]byte{0xbb})}
 					topics = append(topics, simkit.Pick(c, vals, "log-topic1"), simkit.Pick(c, vals, "log-topic2"))
 				}
-				specs = append(specs, simeth.LogSpec{Address: addrUserContract, Topics: topics, Data: word(bigInt(val))})
+				wv := bigInt(val)
+				if c.Chance(120, "wide-log-value") {
+					// a 256-bit value whose low 64 bits look like a small number
+					wv = new(big.Int).Add(wv, new(big.Int).Lsh(bigInt(int64(1+c.Intn(3, "wide-multiple"))), uint(64*(1+c.Intn(3, "wide-limb")))))
+				}
+				specs = append(specs, simeth.LogSpec{Address: addrUserContract, Topics: topics, Data: word(wv)})
 				if t.regBlk == nil || uint64(n)-t.regBlk.Number <= 3 || uint64(n) >= t.expiry {
 					interesting = true
 				}
